@@ -7,10 +7,6 @@ Section Range.
   Variable anch : bytes -> bool.
   Variable re_names : bytes -> option (list bytes).
 
-  (** a duration token as the lexer delivers it: its text and the nanoseconds lexerql.ParseDuration read from it *)
-  Definition dur_tok (txt : bytes) (ns : Z) : token :=
-    {| ty := TDuration; text := txt; v_float := None; v_int := None; v_dur := Some ns; v_bytes := None; v_re := None; v_re_anch := false |}.
-
   Definition print_range (rtxt : bytes) (rns : Z) (off : option (bytes * Z)) : list token :=
     punct TOpenBracket :: dur_tok rtxt rns :: punct TCloseBracket ::
     match off with Some (otxt, ons) => [punct TOffset; dur_tok otxt ons] | None => [] end.
